@@ -52,6 +52,11 @@ def make_box(cls, b):
         return mods["rigid"].Cap(cod[:1], cod[1:])
     if kind == "swap":
         return mod.Swap(dom[:1], dom[1:])
+    if kind == "composite":       # a box that is itself a diagram of two boxes (as the slices of a foliation are)
+        mid = make_ty(cls, b["mid"])
+        return mod.Box(b["name"] + "_hi", dom, mid) >> mod.Box(b["name"] + "_lo", mid, cod)
+    if kind == "idbox":           # an identity diagram used as a box
+        return mod.Id(dom)
     if cls == "circuit" and str(b["name"]).startswith("ms") and not b["dom"] and not b["cod"]:
         from discopy.quantum.gates import MixedScalar
         return MixedScalar(0.5j)      # a box whose double dagger is not itself (mixedness is lost)
@@ -368,6 +373,30 @@ def gen_rigid(rng, nsteps, atoms=("a", "b"), maxw=6, zs=(0, 0, 0, 1, -1, 2, -2, 
         share = share or rng.random() < 0.5
     return {"cls": "pro" if selfdual else "rigid", "dom": dom, "boxes": boxes, "offsets": offsets,
             "share": share}
+
+
+def with_diagram_boxes(rng, spec):
+    """Turn one or two plain boxes of a monoidal/rigid spec into boxes that are themselves diagrams,
+    and perhaps insert an identity diagram used as a box (typing is unchanged)."""
+    spec = dict(spec, boxes=[dict(b) for b in spec["boxes"]], offsets=list(spec["offsets"]))
+    plain = [k for k, b in enumerate(spec["boxes"]) if b.get("kind", "box") == "box"
+             and not b.get("dagger") and b.get("data") is None]
+    rng.shuffle(plain)
+    for k in plain[:rng.randint(1, 2)]:
+        b = spec["boxes"][k]
+        b["kind"] = "composite"
+        b["mid"] = [list(a) for a in (b["dom"] or b["cod"])[:1]] if rng.random() < 0.7 else []
+    if rng.random() < 0.4:
+        layers, cod = M.scan(spec_model(spec))
+        k = rng.randint(0, len(spec["boxes"]))
+        cur = list(cod) if k == len(layers) else list(layers[k][0]) + list(layers[k][1][2]) + list(layers[k][2])
+        if cur:
+            off = rng.randrange(len(cur))
+            t = [list(a) for a in cur[off:off + rng.randint(1, 2)]]
+            spec["boxes"].insert(k, {"name": "id", "dom": t, "cod": [list(a) for a in t], "kind": "idbox",
+                                     "dagger": False})
+            spec["offsets"].insert(k, off)
+    return spec
 
 
 def spec_of(real, cls):
